@@ -171,6 +171,16 @@ def job_factory(cfg):
             res.record(f"{key} inside+weights", Outcome("held", how="ground-exact") if ok else Outcome("cex", env={}, how="ground"),
                        lambda env, bad=bad, w=w, shape=shape: (True, {"points_outside": len(bad), "sum_w": float(w.sum()), "reference_measure": float(REF_MEASURE[shape])}),
                        key=f"{key} factory rule")
+            # the matrix type named by its plain string value (MatrixType is a str enum; the library's own examples pass "mass" / "rigi") selects
+            # the rule of THAT matrix type: same points, same weights
+            try:
+                gs = Gauss(ElemType[et], str(getattr(mt, "value", mt)))
+                same = gs.nPg == g.nPg and np.array_equal(np.asarray(gs.coord, dtype=float), pts) and np.array_equal(np.asarray(gs.weights, dtype=float), w)
+                info = {"nPg_enum": int(g.nPg), "nPg_string": int(gs.nPg)}
+            except Exception as e:  # the enum spelling is accepted, the string spelling is not
+                same, info = False, {"string_spelling_raised": repr(e)}
+            res.record(f"{key} string spelling selects the same rule", Outcome("held", how="ground-exact") if same else Outcome("cex", env={}, how="ground"),
+                       lambda env, info=info: (True, info), key=f"{key} factory rule by string")
     res.symbols = 1
     res.notes.append(f"{n} (element type, matrix type) pairs accepted by Gauss_factory")
     return res
